@@ -286,6 +286,17 @@ func (vc *VC) applyContract(x *ssa.Call, key string, fc *FuncContract, callee *s
 	}
 	// 4. postconditions
 	vc.lastGhostResults = map[string]Val{}
+	var coverBefore *Obligation
+	if coverCalls && fc != nil && (fc.Extern || fc.Opts["assumed"] != "") && len(fc.Ensures) > 0 {
+		coverBefore = vc.coverPoint("before-call " + site)
+	}
+	if coverBefore != nil {
+		defer func() {
+			after := vc.coverPoint("assumed-contract-consistent " + site)
+			after.pairBefore = coverBefore
+			vc.obs = append(vc.obs, after)
+		}()
+	}
 	if fc != nil {
 		env := vc.calleeEnv(fc, callee, args, binds, results, sig)
 		for _, d := range fc.GResults {
